@@ -775,7 +775,7 @@ func ComputeLineStarts(text []byte) []int {
 		pos += size
 		switch ch {
 		case '\r':
-			if pos+1 < len(text) && text[pos] == '\n' {
+			if pos < len(text) && text[pos] == '\n' {
 				pos++
 			}
 			fallthrough
